@@ -11,8 +11,6 @@ import (
 	"golang.org/x/crypto/blake2b"
 	"golang.org/x/crypto/sha3"
 
-	"github.com/oasisprotocol/curve25519-voi/curve"
-	"github.com/oasisprotocol/curve25519-voi/curve/scalar"
 	"github.com/oasisprotocol/curve25519-voi/primitives/sr25519"
 
 	"verifsim/core"
@@ -75,8 +73,13 @@ func init() {
 			"non-trivial = at least one alteration or injected fault was evaluated; distinct = distinct event-log digests",
 		Real: []string{"primitives/sr25519 (keys, context, sign, batch_verify)", "primitives/merlin + internal/strobe", "curve Ristretto arithmetic (also used by the model for group operations - trusted layer)"},
 		Stub: []string{"entropy reader (simio.Entropy)", "caller-supplied hash.Hash / XOF (wrapped: mid-stream state, chunked and failing reads)", "the wire (14 alteration kinds)"},
-		Init: func(e *Env) error { return model.SelfTestMerlin() },
-		Run:  runC12,
+		Init: func(e *Env) error {
+			if err := model.SelfTestMerlin(); err != nil {
+				return err
+			}
+			return model.SelfTestRistretto()
+		},
+		Run: runC12,
 	})
 }
 
@@ -95,47 +98,10 @@ func marshalOwned(b []byte, err error) []byte {
 	return own
 }
 
-func srMulBase(sLE []byte) []byte {
-	s, err := scalar.NewFromCanonicalBytes(sLE)
-	if err != nil {
-		panic("harness: model scalar not canonical")
-	}
-	var p curve.RistrettoPoint
-	p.MulBasepoint(curve.RISTRETTO_BASEPOINT_TABLE, s)
-	return risBytes(&p)
-}
+// srMulBase / srModelVerify: the model's own group arithmetic (math/big), not the library's.
+func srMulBase(sLE []byte) []byte { return model.SrMulBase(sLE) }
 
-// srModelVerify: the schnorrkel verification decision for delivered bytes, with
-// group operations delegated to the library.
-func srModelVerify(t0 *model.MTranscript, pk, sig []byte) bool {
-	R, s, ok := model.SrDecodeSignature(sig)
-	if !ok || len(pk) != 32 {
-		return false
-	}
-	var cpk, cR curve.CompressedRistretto
-	_, _ = cpk.SetBytes(pk)
-	_, _ = cR.SetBytes(R)
-	var A, Rp curve.RistrettoPoint
-	if _, err := A.SetCompressed(&cpk); err != nil {
-		return false
-	}
-	if _, err := Rp.SetCompressed(&cR); err != nil {
-		return false
-	}
-	k, err := scalar.NewFromCanonicalBytes(model.SrChallenge(t0, pk, R))
-	if err != nil {
-		panic("harness: challenge")
-	}
-	ss, err := scalar.NewFromCanonicalBytes(s)
-	if err != nil {
-		panic("harness: s")
-	}
-	var sB, kA, d curve.RistrettoPoint
-	sB.MulBasepoint(curve.RISTRETTO_BASEPOINT_TABLE, ss)
-	kA.Mul(&A, k)
-	d.Sub(&sB, &kA)
-	return bytes.Equal(risBytes(&d), R)
-}
+func srModelVerify(t0 *model.MTranscript, pk, sig []byte) bool { return model.SrVerify(t0, pk, sig) }
 
 // c12Ctxs hands out one SigningContext per context string per run: a signing
 // context is a long-lived object that signers and verifiers reuse for many
